@@ -295,6 +295,8 @@ def run(index, rep, tier):
     with rep.section("R18.12"):
         rep.rule("R18.12", "(a) assigning taxa to the tips never changes the namespace except by adding taxa through its interface: the tree model takes no mutable alias of the namespace's private containers (Tree.randomly_assign_taxa draws from a copy of the taxon list); (b) rates are real numbers: the simulation and probability code contains no floor division - `n // rate` is n / rate only for the rates the tests use (1.0, integers) and 0 or a coarser rate otherwise")
         na = foreign_private_rule(index, rep, "R18.12", ["dendropy.datamodel.treemodel._tree"])
+        # ... and asks the namespace only what a namespace can answer (Tree.randomly_assign_taxa is where the simulators get their tip taxa)
+        na += called_method_exists_rule(index, rep, "R18.12", ["dendropy.datamodel.treemodel._tree"])
         rt = index.function("dendropy.datamodel.treemodel._tree.Tree.randomly_assign_taxa")
         for w in writes_in(rt.node):
             na += 1
